@@ -18,6 +18,7 @@ import (
 	"github.com/pyroscope-io/pyroscope/pkg/agent"
 	"github.com/pyroscope-io/pyroscope/pkg/agent/spy"
 	"github.com/pyroscope-io/pyroscope/pkg/agent/upstream"
+	"github.com/pyroscope-io/pyroscope/pkg/structs/transporttrie"
 	"verifharness/lib"
 )
 
@@ -37,6 +38,10 @@ type Input struct {
 	App       string `json:"app"`
 	// the spy reports every stack through ONE buffer that it overwrites in place between callbacks (as pyspy / rbspy do)
 	ReuseBuffer bool `json:"reuse_buffer"`
+	// every IdleEvery-th upload interval the spy reports nothing at all (an idle target), 0 = never
+	IdleEvery int `json:"idle_every"`
+	// the gospy branch (one spy and one trie per profile type), driven through agent.VerifNewSessionWithSpies
+	GoSpyTypes []string `json:"gospy_types"`
 }
 
 const (
@@ -52,6 +57,7 @@ const (
 
 type entry struct {
 	kind  int
+	spy   int
 	id    int
 	stack string
 	v     uint64
@@ -64,7 +70,10 @@ type job struct {
 	name, spy, units, agg string
 	rate                  uint32
 	start, end            time.Time
-	data                  [][2]string // stack, count
+	data                  [][2]string // stack, count: read inside Upload
+	late                  [][2]string // the same trie read again at the end of the session (as a slow uploader would)
+	trie                  *transporttrie.Trie
+	shared                bool // the very same *Trie was handed over with an earlier job
 	byStop                bool
 }
 
@@ -102,10 +111,22 @@ func (h *runState) add(e entry) {
 }
 
 // ---- fake spy ----
-type fakeSpy struct{ h *runState }
+type fakeSpy struct {
+	h     *runState
+	slot  int  // which profile type it feeds (gospy branch); 0 otherwise
+	cumul bool // reports from a small alphabet, the same stack often twice in one reading
+}
 
-func (s *fakeSpy) Stop() error { s.h.add(entry{kind: eSpyStop}); return nil }
+func (s *fakeSpy) Stop() error {
+	if s.slot == 0 {
+		s.h.add(entry{kind: eSpyStop})
+	}
+	return nil
+}
 func (s *fakeSpy) Reset() {
+	if s.slot != 0 {
+		return // the tick's decision is logged once, by the first spy
+	}
 	s.h.mu.Lock()
 	s.h.dueTicks++
 	s.h.mu.Unlock()
@@ -113,18 +134,27 @@ func (s *fakeSpy) Reset() {
 }
 func (s *fakeSpy) Snapshot(cb func([]byte, uint64, error)) {
 	h := s.h
-	h.add(entry{kind: eSnap})
+	if s.slot == 0 {
+		h.add(entry{kind: eSnap})
+	}
 	n := h.r.Intn(4)
 	if h.r.Intn(8) == 0 {
 		n = 6
 	}
+	if ie := int64(h.in.IdleEvery); ie > 0 {
+		iv := int64(time.Duration(h.in.IntervalMs) * time.Millisecond)
+		if (time.Now().UnixNano()/iv)%ie == 0 {
+			n = 0 // an idle interval
+		}
+	}
 	h.mu.Lock()
-	gateHere := h.in.StopMode == "gate" && !h.gateFired && h.dueTicks == h.in.GateTick && h.dueTicks > 0 &&
+	gateHere := s.slot == 0 && h.in.StopMode == "gate" && !h.gateFired && h.dueTicks == h.in.GateTick && h.dueTicks > 0 &&
 		len(h.log) >= 2 && h.log[len(h.log)-2].kind == eDue
 	h.mu.Unlock()
 	if gateHere && n < h.in.GateAfter+1 {
 		n = h.in.GateAfter + 1
 	}
+	prevStack := ""
 	for i := 0; i < n; i++ {
 		if gateHere && i == h.in.GateAfter {
 			h.gateFired = true
@@ -137,9 +167,13 @@ func (s *fakeSpy) Snapshot(cb func([]byte, uint64, error)) {
 		h.nextID++
 		h.mu.Unlock()
 		stack := fmt.Sprintf("s%d", id)
-		if h.cumul {
+		if s.cumul {
 			stack = fmt.Sprintf("c%d", h.r.Intn(4))
+			if i > 0 && h.r.Intn(2) == 0 {
+				stack = prevStack // pprof-style: one callback per sample, the same stack several times in one reading
+			}
 		}
+		prevStack = stack
 		v := uint64(h.r.Intn(3) + 1)
 		var err error
 		switch h.r.Intn(20) {
@@ -150,7 +184,7 @@ func (s *fakeSpy) Snapshot(cb func([]byte, uint64, error)) {
 		case 2:
 			v = 0
 		}
-		h.add(entry{kind: eSB, id: id, stack: stack, v: v, ok: err == nil})
+		h.add(entry{kind: eSB, spy: s.slot, id: id, stack: stack, v: v, ok: err == nil})
 		if h.in.ReuseBuffer {
 			n := copy(h.buf[:], stack) // the previous stack's bytes are overwritten in place
 			cb(h.buf[:n], v, err)
@@ -175,6 +209,12 @@ func (u *recUpstream) Upload(j *upstream.UploadJob) {
 	}
 	g := gid()
 	h.mu.Lock()
+	jb.trie = j.Trie
+	for _, o := range h.jobs {
+		if o.trie != nil && o.trie == j.Trie {
+			jb.shared = true
+		}
+	}
 	jb.byStop = g == h.stopGID
 	h.jobs = append(h.jobs, jb)
 	n := len(h.jobs) - 1
@@ -192,7 +232,7 @@ func (h *runState) stop() {
 }
 
 func init() {
-	spy.RegisterSpy("verifspy", func(pid int) (spy.Spy, error) { return &fakeSpy{h: cur}, nil })
+	spy.RegisterSpy("verifspy", func(pid int) (spy.Spy, error) { return &fakeSpy{h: cur, cumul: cur.cumul}, nil })
 }
 
 // nanoseconds since Go's zero time as a Coq Z term
@@ -233,16 +273,35 @@ func run(in Input) lib.Result {
 	h.cumul = spy.ProfileType(in.PType).IsCumulative()
 	cur = h
 	interval := time.Duration(in.IntervalMs) * time.Millisecond
-	h.sess = agent.NewSession(&agent.SessionConfig{
-		Upstream: &recUpstream{h: h}, AppName: in.App, ProfilingTypes: []spy.ProfileType{spy.ProfileType(in.PType)},
-		SpyName: "verifspy", SampleRate: uint32(in.RateHz), UploadRate: interval, Pid: 0,
-	}, &agent.NoopLogger{})
-
-	startLo := time.Now()
-	if err := h.sess.Start(); err != nil {
-		return lib.Result{Crash: "Start: " + err.Error()}
+	ptypes := []string{in.PType}
+	spyName := "verifspy"
+	var startLo, startHi time.Time
+	if len(in.GoSpyTypes) > 0 {
+		ptypes = in.GoSpyTypes
+		spyName = "gospy"
+		pts := make([]spy.ProfileType, len(ptypes))
+		spies := make([]spy.Spy, len(ptypes))
+		for i, p := range ptypes {
+			pts[i] = spy.ProfileType(p)
+			spies[i] = &fakeSpy{h: h, slot: i, cumul: pts[i].IsCumulative()}
+		}
+		startLo = time.Now()
+		h.sess = agent.VerifNewSessionWithSpies(&agent.SessionConfig{
+			Upstream: &recUpstream{h: h}, AppName: in.App, ProfilingTypes: pts,
+			SampleRate: uint32(in.RateHz), UploadRate: interval, Pid: 0,
+		}, &agent.NoopLogger{}, spies)
+		startHi = time.Now()
+	} else {
+		h.sess = agent.NewSession(&agent.SessionConfig{
+			Upstream: &recUpstream{h: h}, AppName: in.App, ProfilingTypes: []spy.ProfileType{spy.ProfileType(in.PType)},
+			SpyName: "verifspy", SampleRate: uint32(in.RateHz), UploadRate: interval, Pid: 0,
+		}, &agent.NoopLogger{})
+		startLo = time.Now()
+		if err := h.sess.Start(); err != nil {
+			return lib.Result{Crash: "Start: " + err.Error()}
+		}
+		startHi = time.Now()
 	}
-	startHi := time.Now()
 
 	total := time.Duration(float64(interval) * in.Intervals)
 	switch in.StopMode {
@@ -295,6 +354,14 @@ func run(in Input) lib.Result {
 	log := append([]entry{}, h.log...)
 	jobs := append([]job{}, h.jobs...)
 	h.mu.Unlock()
+	// the late read: what an uploader that serialises a queued job only now would send
+	for i := range jobs {
+		if jobs[i].trie != nil {
+			jobs[i].trie.Iterate(func(name []byte, val uint64) {
+				jobs[i].late = append(jobs[i].late, [2]string{string(name), strconv.FormatUint(val, 10)})
+			})
+		}
+	}
 
 	// ---- dump ----
 	var stopLo, stopHi time.Time
@@ -310,7 +377,7 @@ func run(in Input) lib.Result {
 			logTerms = append(logTerms, "LSnap")
 			snaps = append(snaps, e.t)
 		case eSB:
-			logTerms = append(logTerms, fmt.Sprintf("LSB %d %s %d %s", e.id, lib.Bytes([]byte(e.stack)), e.v, lib.Bool(e.ok)))
+			logTerms = append(logTerms, fmt.Sprintf("LSB %d %s %s %d %s", e.id, lib.Nat(e.spy), lib.Bytes([]byte(e.stack)), e.v, lib.Bool(e.ok)))
 			nSamples++
 			if stopSeen {
 				postStop++
@@ -363,9 +430,13 @@ func run(in Input) lib.Result {
 		for k, d := range j.data {
 			data[k] = lib.Pair(lib.Bytes([]byte(d[0])), d[1])
 		}
-		jobTerms[i] = fmt.Sprintf("{| oj_name := %s; oj_start := %s; oj_end := %s; oj_spy := %s; oj_rate := %d; oj_units := %s; oj_agg := %s; oj_data := %s; oj_by_stop := %s |}",
+		late := make([]string, len(j.late))
+		for k, d := range j.late {
+			late[k] = lib.Pair(lib.Bytes([]byte(d[0])), d[1])
+		}
+		jobTerms[i] = fmt.Sprintf("{| oj_name := %s; oj_start := %s; oj_end := %s; oj_spy := %s; oj_rate := %d; oj_units := %s; oj_agg := %s; oj_data := %s; oj_late := %s; oj_shared := %s; oj_by_stop := %s |}",
 			lib.Bytes([]byte(j.name)), zns(j.start), zns(j.end), lib.Bytes([]byte(j.spy)), j.rate, lib.Bytes([]byte(j.units)),
-			lib.Bytes([]byte(j.agg)), lib.List(data), lib.Bool(j.byStop))
+			lib.Bytes([]byte(j.agg)), lib.List(data), lib.List(late), lib.Bool(j.shared), lib.Bool(j.byStop))
 		if seenStopJob {
 			afterStopJobs++
 		}
@@ -373,8 +444,13 @@ func run(in Input) lib.Result {
 			seenStopJob = true
 		}
 	}
-	coq := "{| q_app := " + lib.Bytes([]byte(in.App)) + "; q_spy := " + lib.Bytes([]byte("verifspy")) + "; q_rate := " + lib.N(uint64(in.RateHz)) +
-		"; q_interval := " + lib.Z(int64(interval)) + "; q_ptype := " + ptypeCoq(in.PType) + "; q_log := " + lib.List(logTerms) +
+	ptTerms := make([]string, len(ptypes))
+	for i, p := range ptypes {
+		ptTerms[i] = ptypeCoq(p)
+	}
+	coq := "{| q_app := " + lib.Bytes([]byte(in.App)) + "; q_spy := " + lib.Bytes([]byte(spyName)) + "; q_rate := " + lib.N(uint64(in.RateHz)) +
+		"; q_interval := " + lib.Z(int64(interval)) + "; q_gospy := " + lib.Bool(len(in.GoSpyTypes) > 0) + "; q_ptypes := " + lib.List(ptTerms) +
+		"; q_log := " + lib.List(logTerms) +
 		"; q_jobs := " + lib.List(jobTerms) + "; q_start_lo := " + zns(startLo) + "; q_start_hi := " + zns(startHi) +
 		"; q_stop_lo := " + zns(stopLo) + "; q_stop_hi := " + zns(stopHi) + "; q_maxgap := " + lib.Z(int64(maxGap)) +
 		"; q_ended := " + lib.Bool(ended) + " |}"
@@ -392,7 +468,7 @@ func run(in Input) lib.Result {
 		NonTrivial: nearBoundary || postStop > 0 || afterStopJobs > 0 || in.StopMode == "gate",
 		Feat: map[string]interface{}{"rate_hz": in.RateHz, "interval_ms": in.IntervalMs, "ptype": in.PType, "stop_mode": in.StopMode,
 			"stop_within_one_tick_of_boundary": nearBoundary, "samples_after_stop_request": postStop > 0, "jobs_after_stop_job": afterStopJobs,
-			"jobs": len(jobs), "gap": gapClass, "procs": in.Procs, "goroutine_ended": ended, "reuse_buffer": in.ReuseBuffer},
+			"jobs": len(jobs), "gap": gapClass, "procs": in.Procs, "goroutine_ended": ended, "reuse_buffer": in.ReuseBuffer, "idle_every": in.IdleEvery, "gospy_types": len(in.GoSpyTypes)},
 		Obs: map[string]interface{}{"samples": nSamples, "jobs": len(jobs), "post_stop_samples": postStop, "jobs_after_stop_job": afterStopJobs,
 			"max_gap_us": int64(maxGap / time.Microsecond), "stop_phase_us": int64(phase / time.Microsecond), "log_tail_us": tail},
 	}
@@ -416,6 +492,22 @@ func gen(r *rand.Rand, idx int, tier string) Input {
 		in.StopMode = "random"
 	}
 	in.ReuseBuffer = lib.Chance(r, 0.5)
+	in.IdleEvery = lib.Pick(r, []int{0, 0, 2, 3})
+	if idx%4 == 3 { // the gospy branch: 2-4 profile types, at least one cumulative
+		all := []string{"cpu", "inuse_objects", "alloc_objects", "inuse_space", "alloc_space"}
+		r.Shuffle(len(all), func(i, j int) { all[i], all[j] = all[j], all[i] })
+		in.GoSpyTypes = all[:lib.Range(r, 2, 4)]
+		hasCum := false
+		for _, p := range in.GoSpyTypes {
+			if p == "alloc_objects" || p == "alloc_space" {
+				hasCum = true
+			}
+		}
+		if !hasCum {
+			in.GoSpyTypes[0] = lib.Pick(r, []string{"alloc_objects", "alloc_space"})
+		}
+		in.ReuseBuffer = false
+	}
 	if tier != "thorough" && in.Intervals > 6 {
 		in.Intervals = 3 + 3*r.Float64()
 	}
